@@ -28,6 +28,11 @@ pub enum Site {
     Dangling(String),
     /// a link (`zr`, `0r`, `.r` or `mr`) inside this directory to the directory `up` levels above it
     Reentrant(String, usize),
+    /// a link (`zu`, `0u`, `.u` or `mu`) inside the first directory to the second directory, which
+    /// is made unreadable and is neither the first directory nor one of its ancestors: read as a
+    /// file the link is a leaf; read as its target it is a directory that cannot be read
+    #[serde(alias = "LinkUnreadable")]
+    LinkUnreadable(String, String),
 }
 
 #[derive(Serialize, Deserialize, Clone, Debug)]
@@ -72,6 +77,16 @@ fn with_faults(tree: &TreeSpec, sites: &[&Site]) -> (TreeSpec, bool) {
                     target = target.rsplit_once('/').map(|x| x.0.to_string()).unwrap_or_default();
                 }
                 t.nodes.push(Node { path, kind: Kind::Link(target), unreadable: false });
+            },
+            Site::LinkUnreadable(d, p) => {
+                for n in t.nodes.iter_mut() {
+                    if n.path == *p {
+                        n.unreadable = true;
+                    }
+                }
+                let name = ["zu", "0u", ".u", "mu"][(d.bytes().map(|b| b as usize).sum::<usize>() + d.len()) % 4];
+                let path = if d.is_empty() { name.to_string() } else { format!("{}/{}", d, name) };
+                t.nodes.push(Node { path, kind: Kind::Link(p.clone()), unreadable: false });
             },
         }
     }
@@ -146,7 +161,7 @@ impl Property for C20 {
         384
     }
     fn required_counters(&self) -> Vec<&'static str> {
-        vec!["placements", "prefixed_glob_walks", "walks", "fault_unreadable_reached", "fault_dangling_reached", "fault_reentrant_reached", "fault_at_base", "fault_last_child", "two_faults", "fault_beneath_discarded_tree", "fault_with_stack", "io_error_conversions", "error_depths_compared"]
+        vec!["placements", "prefixed_glob_walks", "walks", "fault_unreadable_reached", "fault_dangling_reached", "fault_reentrant_reached", "fault_at_base", "fault_last_child", "two_faults", "fault_beneath_discarded_tree", "fault_with_stack", "io_error_conversions", "error_depths_compared", "fault_link_to_unreadable_reached"]
     }
     fn decode(&self, t: &mut Tape) -> Case {
         let tree = gen_tree(t, &TreeCfg { max_entries: 14, ..TreeCfg::default() });
@@ -155,16 +170,26 @@ impl Property for C20 {
         let n = 2 + t.below(8);
         for _ in 0..n {
             let d = t.pick(&dirs);
-            let s = match t.weighted(&[45, 25, 30]) {
+            let s = match t.weighted(&[40, 22, 26, 12]) {
                 0 => Site::Unreadable(d),
                 1 => Site::Dangling(d),
-                _ => Site::Reentrant(d, t.below(3)),
+                2 => Site::Reentrant(d, t.below(3)),
+                _ => {
+                    let cands: Vec<String> = dirs.iter().filter(|p| !p.is_empty() && **p != d && !d.starts_with(&format!("{}/", p))).cloned().collect();
+                    if cands.is_empty() {
+                        Site::Unreadable(d)
+                    }
+                    else {
+                        Site::LinkUnreadable(d, t.pick(&cands))
+                    }
+                },
             };
             if !sites.contains(&s) && sites.len() < 10 {
                 // at most one link of each kind per directory (fixed names zd / zr)
                 let clash = sites.iter().any(|x| match (x, &s) {
                     (Site::Dangling(a), Site::Dangling(b)) => a == b,
                     (Site::Reentrant(a, _), Site::Reentrant(b, _)) => a == b,
+                    (Site::LinkUnreadable(a, _), Site::LinkUnreadable(b, _)) => a == b,
                     _ => false,
                 });
                 if !clash {
@@ -213,6 +238,7 @@ impl Property for C20 {
             let p = &c.tree.nodes[i].path;
             let refd = c.sites.iter().any(|s| match s {
                 Site::Unreadable(d) | Site::Dangling(d) | Site::Reentrant(d, _) => d == p || d.starts_with(&format!("{}/", p)),
+                Site::LinkUnreadable(d, q) => d == p || d.starts_with(&format!("{}/", p)) || q == p || q.starts_with(&format!("{}/", p)),
             });
             if refd {
                 continue;
@@ -270,6 +296,13 @@ impl Property for C20 {
                 st.count("fault_at_base");
             }
             let base = s.root.clone();
+            let followed_link_to_unreadable = case.follow && sites.iter().any(|s| matches!(s, Site::LinkUnreadable(..)));
+            if followed_link_to_unreadable && glob_rt.is_some() {
+                // judged on path walks only (the pruning of a glob is observed from a probed run,
+                // which would have to be taught the same deviation)
+                st.count("followed_link_to_unreadable_under_glob_not_judged");
+                continue;
+            }
             st.count("placements");
             if sites.len() >= 2 {
                 st.count("two_faults");
@@ -399,6 +432,9 @@ impl Property for C20 {
                             st.count("fault_optional");
                             continue;
                         }
+                        if own && case.follow && tree.nodes.iter().any(|n| matches!(n.kind, Kind::Link(_)) && n.path == *rel) {
+                            st.count("fault_link_to_unreadable_reached");
+                        }
                         match *what {
                             "unreadable directory" => st.count("fault_unreadable_reached"),
                             "dangling link" => st.count("fault_dangling_reached"),
@@ -449,25 +485,57 @@ impl Property for C20 {
                     *act_err.entry(p.clone()).or_insert(0) += 1;
                 }
             }
-            for (p, n) in &req_err {
-                if act_err.get(p) != Some(n) {
-                    return Err(describe(&format!("error items by path {:?}, but the fault at {:?} must be reported exactly once, naming its path (required {:?}, possible {:?})", act_err, p, req_err, allowed_err)));
-                }
-            }
-            for (p, n) in &act_err {
-                if allowed_err.get(p).map_or(true, |m| n > m) {
-                    return Err(describe(&format!("error items by path {:?}: {:?} is not a fault of this tree, or is reported more than once (possible {:?})", act_err, p, allowed_err)));
-                }
-            }
             if let Some(r) = &optional_root {
                 if act_ok.get(r) == Some(&1) {
                     act_ok.remove(r);
                 }
             }
-            if act_ok != exp_ok {
-                let missing: Vec<&String> = exp_ok.keys().filter(|k| act_ok.get(*k) != exp_ok.get(*k)).collect();
-                let extra: Vec<&String> = act_ok.keys().filter(|k| !exp_ok.contains_key(*k)).collect();
-                return Err(describe(&format!("entries differ from a fault-free walk of the readable part: missing {:?}, unexpected {:?}", missing, extra)));
+            let judge = |exp_ok: &BTreeMap<String, usize>, req_err: &BTreeMap<String, usize>, allowed_err: &BTreeMap<String, usize>| -> Result<(), String> {
+                for (p, n) in req_err {
+                    if act_err.get(p) != Some(n) {
+                        return Err(format!("error items by path {:?}, but the fault at {:?} must be reported exactly once, naming its path (required {:?}, possible {:?})", act_err, p, req_err, allowed_err));
+                    }
+                }
+                for (p, n) in &act_err {
+                    if allowed_err.get(p).map_or(true, |m| n > m) {
+                        return Err(format!("error items by path {:?}: {:?} is not a fault of this tree, or is reported more than once (possible {:?})", act_err, p, allowed_err));
+                    }
+                }
+                if act_ok != *exp_ok {
+                    let missing: Vec<&String> = exp_ok.keys().filter(|k| act_ok.get(*k) != exp_ok.get(*k)).collect();
+                    let extra: Vec<&String> = act_ok.keys().filter(|k| !exp_ok.contains_key(*k)).collect();
+                    return Err(format!("entries differ from a fault-free walk of the readable part: missing {:?}, unexpected {:?}", missing, extra));
+                }
+                Ok(())
+            };
+            if let Err(m) = judge(&exp_ok, &req_err, &allowed_err) {
+                // open finding F-LINK-UNREADABLE, predicted exactly: a followed link whose target
+                // directory cannot be read gives no entry and one error item that names no path
+                let mut q_ok = exp_ok.clone();
+                let mut q_req = req_err.clone();
+                let mut q_all = allowed_err.clone();
+                let mut links = Vec::new();
+                if followed_link_to_unreadable && crate::findings::is_open("F-LINK-UNREADABLE", "C20") {
+                    for it in &reference {
+                        if let RefItem::Error { rel, what } = it {
+                            if *what == "unreadable directory" && tree.nodes.iter().any(|n| matches!(n.kind, Kind::Link(_)) && n.path == *rel) {
+                                let p = p_of(rel);
+                                q_ok.remove(&p);
+                                q_all.remove(&p);
+                                if q_req.remove(&p).is_some() {
+                                    *q_req.entry(String::new()).or_insert(0) += 1;
+                                }
+                                *q_all.entry(String::new()).or_insert(0) += 1;
+                                links.push(rel.clone());
+                            }
+                        }
+                    }
+                }
+                if !links.is_empty() && judge(&q_ok, &q_req, &q_all).is_ok() {
+                    st.known("F-LINK-UNREADABLE", || describe(&format!("the followed link(s) {:?} to an unreadable directory: no entry, and an error item whose path() is None", links)));
+                    continue;
+                }
+                return Err(describe(&m));
             }
             // statistics: a fault that is the last child / followed by entries
             let first_err = bare_seq.iter().position(|x| !x.0);
@@ -487,8 +555,10 @@ impl Property for C20 {
                     let expected_kind = match &path {
                         Some(p) => match std::fs::symlink_metadata(p) {
                             Ok(m) if m.file_type().is_symlink() => {
-                                if std::fs::metadata(p).is_err() {
-                                    Some(std::io::ErrorKind::NotFound)
+                                if let Err(e) = std::fs::metadata(p) {
+                                    // missing target: NotFound; a target beneath a directory
+                                    // that cannot be searched: PermissionDenied
+                                    Some(e.kind())
                                 }
                                 else {
                                     Some(std::io::ErrorKind::Other)
